@@ -38,6 +38,7 @@ K == [ SentOk1   |-> L("sent1", F, F, "none"),
        LocHuge   |-> L("text", F, F, "huge"),
        LocOddPc  |-> L("text", F, F, "huge"),     \* a pc= number in another notation (decimal, 0X.., 0o.., 0b.., 0x_..)
        LocBad    |-> L("text", F, F, "bad"),
+       LocNoPcPath |-> L("text", F, F, "nonepath"), \* inlined call; its file path has a word pc=0xADDR
        LocNoPc   |-> L("text", F, F, "none") ]
 \* SymPlain / SymParen1 and NoParen / LocNoPc are the same abstract lines (a text line with neither a
 \* paren nor a pc); they are kept apart for concretization only.
@@ -89,7 +90,7 @@ Erase(h) == LET hd == Hdr(h)  e == EndIdx(h) IN
               ELSE IF i = e THEN L(h[i].s, F, F, "none")
               ELSE IF i > e THEN L("blank", F, F, "none")
               ELSE IF (i - hd) % 2 = 1 THEN L(h[i].s, h[i].paren, h[i].sig /\ h[i].s = "text", "none")
-              ELSE L(h[i].s, F, F, IF h[i].pc = "okpath" THEN "ok" ELSE h[i].pc)]
+              ELSE L(h[i].s, F, F, IF h[i].pc = "okpath" THEN "ok" ELSE IF h[i].pc = "nonepath" THEN "none" ELSE h[i].pc)]
 EraseOK == LET g == Erase(hist)  w == WellFormed(hist) IN
            /\ WellFormed(g) = w
            /\ w => /\ Expected(g) = Expected(hist)
